@@ -20,6 +20,17 @@ type Cont struct {
 	Ptr    *types.Var   // ptr (registered ego)
 	Iface  *types.Named // List / Object
 	IsList bool
+	// Base: the ego field lives in an embedded base struct (`self[List]{ptr List}` embedded in list): the embedded field;
+	// Ptr is then the field of the (instantiated) base struct. nil when the ego field is a direct field.
+	Base *types.Var
+}
+
+// sameField: two field variables denote the same declared field (a field of a generic struct and of its instances are the same).
+func sameField(a, b *types.Var) bool {
+	if a == nil || b == nil {
+		return a == b
+	}
+	return a == b || a.Origin() == b.Origin()
 }
 
 type Inv struct {
@@ -115,6 +126,44 @@ func (c *Ctx) Inv() *Inv {
 			if fn, ok := f.Type().(*types.Named); ok && fn.Obj().Pkg() == c.Types {
 				if _, isI := fn.Underlying().(*types.Interface); isI {
 					ct.Ptr, ct.Iface = f, fn
+				}
+			}
+		}
+		if ct.Iface == nil {
+			// the ego field one struct deeper: a base struct (possibly an instance of a generic one) embedded in the container,
+			// holding the registered outer value under the container's exported interface
+			for i := 0; i < st.NumFields() && ct.Iface == nil; i++ {
+				f := st.Field(i)
+				if !f.Embedded() {
+					continue
+				}
+				bst, ok := f.Type().Underlying().(*types.Struct)
+				if !ok {
+					continue
+				}
+				for j := 0; j < bst.NumFields(); j++ {
+					g := bst.Field(j)
+					if fn, ok := g.Type().(*types.Named); ok && fn.Obj().Pkg() == c.Types {
+						it, isI := fn.Underlying().(*types.Interface)
+						if !isI || !types.Implements(types.NewPointer(named), it) {
+							continue
+						}
+						if fn.Obj().Exported() {
+							ct.Ptr, ct.Iface, ct.Base = g, fn, f
+						} else if ego, _, _ := types.LookupFieldOrMethod(types.NewPointer(named), true, c.Types, "Ego"); ego != nil {
+							// the ego kept under an unexported interface common to the containers (`self container`): the container's
+							// interface is what its Ego() hands back
+							if m, ok := ego.(*types.Func); ok {
+								if sig := m.Type().(*types.Signature); sig.Params().Len() == 0 && sig.Results().Len() == 1 {
+									if rn, ok := sig.Results().At(0).Type().(*types.Named); ok && rn.Obj().Pkg() == c.Types && rn.Obj().Exported() {
+										if rit, isI := rn.Underlying().(*types.Interface); isI && types.Implements(types.NewPointer(named), rit) {
+											ct.Ptr, ct.Iface, ct.Base = g, rn, f
+										}
+									}
+								}
+							}
+						}
+					}
 				}
 			}
 		}
@@ -248,10 +297,32 @@ func (c *Ctx) recvCont(fd *ast.FuncDecl) *Cont {
 	}
 	if p, ok := r.Type().(*types.Pointer); ok {
 		if n, ok := p.Elem().(*types.Named); ok {
-			return c.Inv().ContOf(n)
+			if ct := c.Inv().ContOf(n); ct != nil {
+				return ct
+			}
+			// a method of the base struct the containers embed (it holds their ego field): read as a method of a container
+			for _, ct := range c.Inv().Conts {
+				if ct.Base != nil {
+					if bn, ok := ct.Base.Type().(*types.Named); ok && bn.Origin().Obj() == n.Origin().Obj() {
+						return ct
+					}
+				}
+			}
 		}
 	}
 	return nil
+}
+
+// egoFieldOf: the accessor term denotes the ego field of the receiver: recv.ptr, or — the ego kept under an interface common to the
+// containers — recv.self.(List) in its comma-ok form (a value that is no List comes back as the nil List a nil ptr is).
+func egoFieldOf(t Term, ct *Cont) (TSel, bool) {
+	if pr, ok := t.(TProj); ok && pr.K == 0 && ct.Base != nil {
+		if as, ok := pr.X.(TAssert); ok && as.To != nil && types.Identical(as.To, ct.Iface) {
+			t = as.X
+		}
+	}
+	sel, ok := t.(TSel)
+	return sel, ok && sameField(sel.Field, ct.Ptr)
 }
 
 // isEgoAccessor: method f (interface or concrete) returns the ptr field of its receiver.
@@ -260,12 +331,26 @@ func (c *Ctx) isEgoAccessor(f *types.Func) bool {
 		return false
 	}
 	for _, ct := range c.Inv().Conts {
-		fd := c.Decl("(*" + ct.Named.Obj().Name() + ")." + f.Name())
+		fd := c.methodDecl(ct, f.Name())
+		debugf("isEgoAccessor %s ct=%s base=%v fd=%v\n", f.FullName(), ct.Named.Obj().Name(), ct.Base != nil, fd != nil)
 		if fd == nil {
 			continue
 		}
 		sig := f.Type().(*types.Signature)
 		if sig.Params().Len() != 0 || sig.Results().Len() != 1 {
+			continue
+		}
+		if ct.Base != nil && c.decls["(*"+ct.Named.Obj().Name()+")."+f.Name()] == nil {
+			// promoted from the embedded base: f is that method (or an instance of it), or the interface method it implements
+			_, viaIface := sig.Recv().Type().Underlying().(*types.Interface)
+			if f.Origin() != c.FuncObj(fd) && !viaIface {
+				continue
+			}
+			if t, ok := c.accessorTerm(fd).(TSel); ok && sameField(t.Field, ct.Ptr) {
+				if tv, ok := t.X.(TVar); ok && tv.Obj == c.recvObj(fd) {
+					return true
+				}
+			}
 			continue
 		}
 		// receiver of f must be this container or its interface
@@ -275,7 +360,7 @@ func (c *Ctx) isEgoAccessor(f *types.Func) bool {
 				continue
 			}
 		}
-		if t, ok := c.accessorTerm(fd).(TSel); ok && t.Field == ct.Ptr {
+		if t, ok := egoFieldOf(c.accessorTerm(fd), ct); ok {
 			if tv, ok := t.X.(TVar); ok && tv.Obj == c.recvObj(fd) {
 				return true
 			}
@@ -441,7 +526,18 @@ func shortType(t types.Type) string {
 
 // methodDecl returns the concrete implementation (*cont).name.
 func (c *Ctx) methodDecl(ct *Cont, name string) *ast.FuncDecl {
-	return c.Decl("(*" + ct.Named.Obj().Name() + ")." + name)
+	if fd := c.decls["(*"+ct.Named.Obj().Name()+")."+name]; fd != nil {
+		return fd
+	}
+	// a method promoted from the embedded base struct (Init / Ego of `self[T]`): its declaration, on the generic origin
+	if ct.Base != nil {
+		if obj, _, _ := types.LookupFieldOrMethod(types.NewPointer(ct.Named), true, c.Types, name); obj != nil {
+			if f, ok := obj.(*types.Func); ok {
+				return c.DeclOf(f.Origin())
+			}
+		}
+	}
+	return nil
 }
 
 // ifaceMethods lists the explicit and embedded methods of a container interface, sorted.
